@@ -10,7 +10,7 @@ use serde_json::Value as J;
 macro_rules! harness {
     ($name:ident, $body:expr) => {
         #[kani::proof]
-        #[kani::unwind(66)]
+        #[kani::unwind(5)]
         #[kani::stub(crate::parser::parse_value, no_parse_value)]
         #[kani::stub(std::ptr::drop_in_place, noop_drop)]
         fn $name() {
@@ -174,10 +174,13 @@ harness!(c19_empty, split1(4, |k| match k {
 //@ desc: vacuity twin: converting a number document claimed to fail — must be refuted
 //@ fns: to_serde_json
 #[kani::proof]
-#[kani::unwind(66)]
+#[kani::unwind(5)]
 #[kani::stub(crate::parser::parse_value, no_parse_value)]
 #[kani::stub(std::ptr::drop_in_place, noop_drop)]
 fn c19_twin_must_fail() {
     let d = B::build(&leaf(K_NUM, 2));
-    assert!(to_serde_json(d.bytes()).is_err(), "TWIN: deliberately false");
+    let r = to_serde_json(d.bytes());
+    let bad = r.is_err();
+    core::mem::forget(r);
+    assert!(bad, "TWIN: deliberately false");
 }
